@@ -362,6 +362,15 @@ fn keyboard(host: &mut Host, name: &str, op: &Value) -> Result<Option<Value>, St
                         ret = json!(n);
                     }
                     "consume" => kb.consume_pending_events(),
+                    "restart" => {
+                        // snapshot -> JSON -> a fresh matrix (the path a saved machine takes)
+                        let snap = kb.snapshot_state();
+                        let text = serde_json::to_string(&snap).map_err(|e| format!("{e}"))?;
+                        let back = serde_json::from_str(&text).map_err(|e| format!("{e}"))?;
+                        let mut fresh = KeyboardMatrix::new();
+                        fresh.load_snapshot_state(&back);
+                        *kb = fresh;
+                    }
                     "clrisr" => mem.write_internal_byte(0xFC, 0),
                     "kbirq" => kb_irq = b(step, 1)?,
                     other => return Err(format!("bad keyboard step {other}")),
